@@ -176,12 +176,20 @@ func moveOrCopy(obj *OpObj, target dom.ContainerBuilder, move bool) error {
 		return err
 	}
 	if move {
-		_ = doRemove(&OpObj{
-			Path: *obj.From,
-		}, target)
+		// The "from" location MUST NOT be a proper prefix of the "path" location
+		if isProperPrefix(*obj.From, obj.Path) {
+			return fmt.Errorf("cannot move %s into its own child %s", obj.From.String(), obj.Path.String())
+		}
+		if err = doRemove(&OpObj{Path: *obj.From}, target); err != nil {
+			return err
+		}
+		if err = doAdd(&OpObj{Value: n, Path: obj.Path}, target); err != nil {
+			// put it back, so failed move leaves document untouched
+			_ = doAdd(&OpObj{Value: n, Path: *obj.From}, target)
+		}
+		return err
 	}
-
-	return doAdd(&OpObj{Value: n, Path: obj.Path}, target)
+	return doAdd(&OpObj{Value: n.Clone(), Path: obj.Path}, target)
 }
 
 func doTest(obj *OpObj, target dom.ContainerBuilder) error {
@@ -202,4 +210,16 @@ func get(path Path, target dom.ContainerBuilder) (dom.Node, error) {
 		return nil, fmt.Errorf("path does not resolve to existing node: %s", path.String())
 	}
 	return n, nil
+}
+
+func isProperPrefix(a, b Path) bool {
+	if len(a) >= len(b) {
+		return false
+	}
+	for i := range a {
+		if a[i] != b[i] {
+			return false
+		}
+	}
+	return true
 }
